@@ -217,6 +217,37 @@ func runPair(rcx *RunCtx, pc pairCase) {
 			rcx.Find("C06", "no-reply", pc.B.Name, "request B %s was never answered after A was released", reqB)
 		}
 		fs.Hold = nil
+		// After-effects: however the tail of A interleaved with B, the
+		// backend's handles are where the tree says, and every fid that is
+		// still bound can be cloned and looked at.  (A clone walks in place,
+		// which is what fails when the path tree has lost track of a fid.)
+		for _, v := range fs.CheckCoherence() {
+			rcx.Find("C08", v.Oracle, "pair-aftermath", "after %s || %s (%s): %s", describeOp(pc.A, pa), describeOp(pc.B, pb), pc.Rel, v.Detail)
+		}
+		type pf struct {
+			c   *SrvConn
+			fid uint32
+		}
+		for _, x := range []pf{{ca, fidA}, {cb, fb}, {ca, auxA}, {cb, auxB}} {
+			req := x.c.Send(x.c.Tag(), &rc.Twalk{Fid: x.fid, NewFid: 90})
+			simrt.WaitQuiescent()
+			if req.Reply == nil {
+				rcx.Find("C06", "no-reply", "pair-aftermath", "clone of fid %d after the pair was not answered", x.fid)
+				break
+			}
+			if Errno(req.Reply.Msg) == EFAULT {
+				rcx.Find("C04", "wrong-reply", "pair-aftermath/EFAULT", "after %s || %s (%s): cloning fid %d gives EFAULT although no backend call panicked", describeOp(pc.A, pa), describeOp(pc.B, pb), pc.Rel, x.fid)
+			}
+			if _, ok := req.Reply.Msg.(*rc.Rwalk); ok {
+				g := x.c.Send(x.c.Tag(), &rc.Tgetattr{Fid: 90, Mask: rc.GetattrIno})
+				simrt.WaitQuiescent()
+				if g.Reply != nil && Errno(g.Reply.Msg) == EFAULT {
+					rcx.Find("C04", "wrong-reply", "pair-aftermath/EFAULT", "after %s || %s (%s): Tgetattr on a clone of fid %d gives EFAULT", describeOp(pc.A, pa), describeOp(pc.B, pb), pc.Rel, x.fid)
+				}
+				x.c.Send(x.c.Tag(), &rc.Tclunk{Fid: 90})
+				simrt.WaitQuiescent()
+			}
+		}
 		w.Shutdown()
 		rcx.Findings = append(rcx.Findings, w.Findings...)
 	})
